@@ -5,7 +5,7 @@
    commutative-ring laws, EVERY shape r x c (r >= 1), EVERY entry, vector and scalar.  No law about conj is needed.
    c01s_wf r c A := A has r rows of length c. *)
 From Coq Require Import List ZArith Bool Ring.
-From DuneV Require Import C01_Model C01_Spec C01_Proofs C01_Proofs_Ops C01_Proofs_Mul C01_Proofs_Views C01_Proofs_Via C01_Proofs_Conv C01_Proofs_Neg.
+From DuneV Require Import C01_Model C01_Spec C01_Proofs C01_Proofs_Ops C01_Proofs_Mul C01_Proofs_Views C01_Proofs_Via C01_Proofs_Conv C01_Proofs_Neg C01_Proofs_Extra.
 Import ListNotations.
 
 Section C01.
@@ -162,6 +162,21 @@ Theorem C01_matrix_negation_dynamic_default_refuted : forall (a : R) (row : list
 Proof. exact (P_mneg_empty_result K). Qed.
 Theorem C01_matrix_comparison : forall r c (A B : list (list R)), c01s_wf r c A -> c01s_wf r c B -> c01_meq K A B = c01s_meqb K A B.
 Proof. exact (P_meq K). Qed.
+
+(* assignment from a scalar / from another vector (operator=, converting constructors, DenseMatrixAssigner<.,scalar>);
+   FMatrixHelp::multTransposedMatrix computes A^T A whatever the result held before *)
+Theorem C01_assignment : forall r c (A T0 : list (list R)) (x y : list R) (k : R), c01s_wf r c A -> c01s_wf c c T0 -> 0 < r -> length y = length x ->
+  c01_fill x k = map (fun _ => k) x /\ c01_vassign K x y = y /\ c01_mfill A k = map (map (fun _ => k)) A /\
+  c01_mult_transposed K r c A T0 = c01s_mat_mul K c (c01s_transpose K c A) A.
+Proof. exact (P_assignment K Rth). Qed.
+
+(* the norms that are exact on integers: one_norm / one_norm_real / two_norm2 are sums, infinity_norm(_real) maxima, of the
+   componentwise absolute value nrm; frobenius_norm2 and the matrix infinity norms are the sum / max over the rows *)
+Theorem C01_norms : forall (nrm : R -> Z) (x : list R) (A : list (list R)),
+  c01_norm_sum K nrm x = fold_right Z.add 0%Z (map nrm x) /\ c01_norm_max K nrm x = fold_right Z.max 0%Z (map nrm x) /\
+  c01_mnorm_sum K nrm A = fold_right Z.add 0%Z (map (fun row => fold_right Z.add 0%Z (map nrm row)) A) /\
+  c01_mnorm_inf K nrm A = fold_right Z.max 0%Z (map (fun row => fold_right Z.add 0%Z (map nrm row)) A).
+Proof. exact (P_norms K). Qed.
 End C01.
 Print Assumptions C01_kernels_dense.
 Print Assumptions C01_kernels_diag.
@@ -181,6 +196,8 @@ Print Assumptions C01_conversions.
 Print Assumptions C01_matrix_negation.
 Print Assumptions C01_matrix_negation_dynamic_default_refuted.
 Print Assumptions C01_matrix_comparison.
+Print Assumptions C01_assignment.
+Print Assumptions C01_norms.
 
 (* the hypotheses are satisfiable: the carriers used by the correspondence check satisfy the laws *)
 Theorem C01_instance_Z : ring_theory (c01_O c01_Z_ops) (c01_I c01_Z_ops) (c01_add c01_Z_ops) (c01_mul c01_Z_ops) (c01_sub c01_Z_ops) (c01_opp c01_Z_ops) (@eq Z).
